@@ -10,17 +10,32 @@ from common import err_class, sx, parse_sx, time_limit
 
 
 def _canon_td(x):
-    from tensordict import TensorDictBase
+    """exact, order-independent description of a program result: class, batch size, dim names, lock state,
+    every leaf (key, shape, dtype, values); lazy stacks member by member"""
+    from tensordict import LazyStackedTensorDict, TensorDictBase, is_tensorclass
+    if isinstance(x, LazyStackedTensorDict):
+        return ["lazy", x.stack_dim, list(x.batch_size), _names(x), bool(x.is_locked), [_canon_td(t) for t in x.tensordicts]]
+    if is_tensorclass(x):
+        return ["tc", type(x).__name__, _canon_td(x._tensordict)]
     if isinstance(x, TensorDictBase):
         items = sorted(((k if isinstance(k, str) else ".".join(k)), v) for k, v in x.items(True, True))
-        return ["td", list(x.batch_size), [[k, list(v.shape), v.reshape(-1).tolist()] for k, v in items if isinstance(v, torch.Tensor)]]
+        nodes = sorted((k if isinstance(k, str) else ".".join(k)) for k in x.keys(True, False) if k not in x.keys(True, True))
+        return ["td", type(x).__name__, list(x.batch_size), _names(x), bool(x.is_locked), nodes,
+                [[k, list(v.shape), str(v.dtype), v.reshape(-1).tolist()] if isinstance(v, torch.Tensor) else [k, "py", repr(v)] for k, v in items]]
     if isinstance(x, torch.Tensor):
-        return ["t", list(x.shape), x.reshape(-1).tolist()]
+        return ["t", list(x.shape), str(x.dtype), x.reshape(-1).tolist()]
     if isinstance(x, (list, tuple)):
         return ["seq"] + [_canon_td(i) for i in x]
     if isinstance(x, dict):
-        return ["dict"] + [[k, _canon_td(v)] for k, v in sorted(x.items())]
+        return ["dict"] + [[str(k), _canon_td(v)] for k, v in sorted(x.items(), key=lambda kv: str(kv[0]))]
     return ["py", repr(x)]
+
+
+def _names(x):
+    try:
+        return list(x.names)
+    except Exception as e:
+        return "names-err:" + type(e).__name__
 
 
 def helper_duals(run):
@@ -97,154 +112,224 @@ def helper_duals(run):
 
 
 # ------------------------------------------------------------------------------------ programs
-OPS = [
-    "set_sum", "mul2", "add_td", "abs", "neg", "reshape_flat", "unsqueeze0", "unsqueeze_last", "permute_rev", "transpose01",
-    "flatten01", "squeeze", "idx0", "idx_head", "idx_empty", "idx_tail", "idx_step", "idx_ell0", "idx_neg", "idx_list",
-    "sum0", "stack0", "cat0", "stack_last", "select_a", "exclude_b", "apply_inc", "named_apply", "clone", "expand2", "unbind0",
-    "split1", "chunk2", "getset_nested", "update_new", "rename", "setitem_idx", "where_self", "empty_like_add", "flatten_keys",
+def gen_program(rng, tier):
+    """(shape, input kind, op names).  Round-1 vocabulary (the property's quantifier: construction, key access,
+    shape ops, indexing, arithmetic, reductions, stack/cat, select/exclude, apply, to_dict) mixed with the
+    round-2 vocabulary (names, lock, tuple keys, lazy stacks, tensorclass, tensordict.nn, consolidate, ...)."""
+    import c18_ops as O
+    shapes = [(3,), (2, 3), (3, 1), (2, 2, 2), (1,), (4, 2)]
+    kind = rng.choice(["td", "td", "td", "named", "named", "lazy", "tc"])
+    shape = rng.choice(shapes)
+    n = rng.randint(1, 6)
+    ops = []
+    for _ in range(n):
+        r = rng.random()
+        if r < 0.45:
+            ops.append(rng.choice(O.ROUND1))
+        elif r < 0.97:
+            ops.append(rng.choice(O.ROUND2))
+        else:
+            ops.append(rng.choice(O.HETERO))
+    if rng.random() < 0.2:
+        ops[-1] = rng.choice(O.TERMINAL)
+    return shape, kind, ops
+
+
+def run_eager(shape, kind, ops):
+    import c18_ops as O
+    try:
+        with time_limit(60):
+            return _canon_td(O.run_program(O.make_input(shape, kind), ops))
+    except Exception as ex:
+        return "err"
+
+
+LAST_COMPILED_ERROR = [""]
+
+
+def run_compiled(shape, kind, ops, backend):
+    import torch._dynamo
+    import c18_ops as O
+    torch._dynamo.reset()
+    LAST_COMPILED_ERROR[0] = ""
+    f = torch.compile(lambda td, ops=tuple(ops): O.run_program(td, ops), backend=backend)
+    try:
+        with time_limit(300):
+            return _canon_td(f(O.make_input(shape, kind)))
+    except TimeoutError:
+        raise
+    except Exception as ex:
+        LAST_COMPILED_ERROR[0] = type(ex).__name__ + ": " + str(ex)[:4000]
+        return "err"
+
+
+# ---- torch bugs (NOT tensordict's): each one is reproduced WITHOUT tensordict at the start of the program stream;
+# a compiled failure is attributed to it only while the torch-only reproduction still fails and the error text matches.
+def _repro_setattr_wrapper_recursion():
+    """a class whose __setattr__ wraps object.__setattr__ and assigns a property: dynamo recurses for ever
+    (InternalTorchDynamoError: RecursionError).  tensorclass.__setattr__ is such a wrapper (`tc.names = ...`)."""
+    import functools
+    import torch._dynamo
+
+    class A:
+        @property
+        def names(self):
+            return self.__dict__.get("_n")
+
+        @names.setter
+        def names(self, v):
+            self.__dict__["_n"] = v
+
+    def wrap(setattr_):
+        @functools.wraps(setattr_)
+        def wrapper(self, key, value):
+            return setattr_(self, key, value)
+        return wrapper
+    A.__setattr__ = wrap(A.__setattr__)
+
+    def g(a, x):
+        a.names = ["u"]
+        return x + 1
+    torch._dynamo.reset()
+    try:
+        torch.compile(g, backend="eager")(A(), torch.zeros(2))
+        return False
+    except Exception as ex:
+        return "RecursionError" in str(ex)
+
+
+def _repro_list_pop_dynamic_int():
+    """an int argument of a compiled frame becomes a SymInt on the second distinct value (automatic dynamic);
+    `list.pop(that_int)` then dies with InternalTorchDynamoError (SymNodeVariable() is not a constant).
+    tensordict meets it in `TensorDict._squeeze(dim)` (`batch_size.pop(dim)`) when a lazy stack squeezes dim after dim."""
+    import torch._dynamo
+
+    def inner(x, l, d):
+        l = list(l)
+        l.pop(d)
+        return x.reshape(-1)[:1] + len(l)
+    torch._dynamo.reset()
+    f = torch.compile(inner, backend="eager")
+    try:
+        f(torch.zeros(2, 3), [5, 6, 7], 2)
+        f(torch.zeros(2, 3), [5, 6, 7], 1)
+        return False
+    except Exception as ex:
+        return "SymNodeVariable() is not a constant" in str(ex)
+
+
+def _repro_object_compare_symint():
+    """`obj > n` where `obj` is a user object with `__gt__` and `n` an int argument that became a SymInt (second
+    distinct value): dynamo evaluates `op(object(), None)` internally and dies with InternalTorchDynamoError.
+    tensordict meets it in `TensorDict.__gt__` & co. when a nested tensordict is compared with a changing int."""
+    import torch._dynamo
+
+    class A:
+        def __init__(self):
+            self.t = torch.ones(2)
+
+        def __gt__(self, o):
+            return self.t > o
+
+    def f(x, a, n):
+        return x + (a > n)
+    torch._dynamo.reset()
+    fc = torch.compile(f, backend="eager")
+    try:
+        for n in (1, 2, 3):
+            fc(torch.zeros(2), A(), n)
+        return False
+    except Exception as ex:
+        return "not supported between instances of 'object' and 'NoneType'" in str(ex)
+
+
+TORCH_BUGS = [
+    {"id": "dynamo-object-compare-symint", "repro": _repro_object_compare_symint,
+     "match": lambda msg: "not supported between instances of 'object' and 'NoneType'" in msg},
+    {"id": "dynamo-list-pop-dynamic-int", "repro": _repro_list_pop_dynamic_int,
+     "match": lambda msg: "SymNodeVariable() is not a constant" in msg and ".pop(" in msg},
+    {"id": "dynamo-setattr-wrapper-recursion", "repro": _repro_setattr_wrapper_recursion,
+     "match": lambda msg: "RecursionError" in msg and "setattr_(self, key, value)" in msg},
 ]
 
 
-def apply_op(td, op):
-    from tensordict import TensorDict
-    if op == "set_sum":
-        td = td.clone(False); td["z"] = td["a"] + 1; return td
-    if op == "mul2":
-        return td * 2
-    if op == "add_td":
-        return td + td
-    if op == "abs":
-        return td.abs()
-    if op == "neg":
-        return -td
-    if op == "reshape_flat":
-        return td.reshape(-1)
-    if op == "unsqueeze0":
-        return td.unsqueeze(0)
-    if op == "unsqueeze_last":
-        return td.unsqueeze(-1)
-    if op == "permute_rev":
-        return td.permute(*tuple(range(td.batch_dims))[::-1])  # not *reversed(...): torch 2.14 dynamo itself drops elements of a `reversed` iterator across a graph break (reproduced without tensordict)
-    if op == "transpose01":
-        return td.transpose(0, 1)
-    if op == "flatten01":
-        return td.flatten(0, 1)
-    if op == "squeeze":
-        return td.squeeze()
-    if op == "idx0":
-        return td[0]
-    if op == "idx_head":
-        return td[:1]
-    if op == "idx_empty":
-        return td[:0]
-    if op == "idx_tail":
-        return td[1:]
-    if op == "idx_step":
-        return td[::2]
-    if op == "idx_ell0":
-        return td[..., 0]
-    if op == "idx_neg":
-        return td[-1:]
-    if op == "idx_list":
-        return td[[0, 0]]
-    if op == "sum0":
-        return td.sum(0)
-    if op == "stack0":
-        return torch.stack([td, td], 0)
-    if op == "stack_last":
-        return torch.stack([td, td * 3], -1)
-    if op == "cat0":
-        return torch.cat([td, td], 0)
-    if op == "select_a":
-        return td.select("a")
-    if op == "exclude_b":
-        return td.exclude("b")
-    if op == "apply_inc":
-        return td.apply(lambda x: x + 1)
-    if op == "named_apply":
-        return td.named_apply(lambda k, x: x * (2 if k == "a" else 3))
-    if op == "clone":
-        return td.clone()
-    if op == "expand2":
-        return td.expand(2, *td.batch_size)
-    if op == "unbind0":
-        return td.unbind(0)[-1]
-    if op == "split1":
-        return td.split(1, 0)[0]
-    if op == "chunk2":
-        return td.chunk(2, 0)[-1]
-    if op == "getset_nested":
-        td = td.clone(False); td["n", "x"] = td["a"] * 5; return td
-    if op == "update_new":
-        td = td.clone(False); td.update({"w": td["a"] - 1}); return td
-    if op == "rename":
-        td = td.clone(False); td.rename_key_("a", "a2"); td["a"] = td["a2"]; return td
-    if op == "setitem_idx":
-        td = td.clone(); td[0] = td[-1]; return td
-    if op == "where_self":
-        return td.apply(lambda x: torch.where(x > 3, x, -x))
-    if op == "empty_like_add":
-        return td.apply(lambda x, y: x + y, td)
-    if op == "flatten_keys":
-        return td.flatten_keys(".")
-    raise KeyError(op)
+def live_torch_bugs(run):
+    live = []
+    for b in TORCH_BUGS:
+        try:
+            with time_limit(120):
+                ok = b["repro"]()
+        except Exception:
+            ok = False
+        run.notes.append(f"torch bug {b['id']}: torch-only reproduction {'still fails (exclusion active)' if ok else 'no longer fails (exclusion off)'}")
+        if ok:
+            live.append(b)
+    return live
 
 
-def run_program(td, ops):
-    for op in ops:
-        td = apply_op(td, op)
-    return td
-
-
-def make_input(shape):
-    from tensordict import TensorDict
-    n = 1
-    for s in shape:
-        n *= s
-    a = torch.arange(n).reshape(shape)
-    return TensorDict({"a": a.clone(), "b": (a * 10).unsqueeze(-1).expand(*shape, 2).clone(),
-                       "n": TensorDict({"x": a + 100}, batch_size=shape)}, batch_size=shape)
+# fixed programs, always run first: minimised past failures and one witness per round-2 area
+CORPUS = [
+    ((3,), "td", ["idx_empty"]), ((2, 3), "td", ["idx_empty", "mul2"]), ((3,), "td", ["idx_neg", "add_td"]), ((2, 3), "td", ["idx_step", "sum0"]),
+    # operands whose key sets differ (seeded C18-6: a later operand with an extra key was silently accepted under compile)
+    ((3,), "td", ["stack_extra_later"]), ((2, 3), "td", ["cat_extra_later"]), ((3,), "td", ["stack_missing_later"]),
+    ((3,), "td", ["dense_stack_extra_later"]),
+    # dimension names survive ops under compile (defect repaired in round 2)
+    ((2, 3), "named", ["unsqueeze0", "transpose01"]), ((2, 3), "named", ["construct_names", "idx0"]),
+    # a tensorclass made from a tensordict shares it under compile too; lazy stacks stay lazy (defects repaired in round 2)
+    ((2, 3), "lazy", ["tc_from_td"]), ((2, 3), "tc", ["lazy_stack0"]),
+    # permuting a lazy stack under compile (numpy integer as stack_dim, repaired in round 2)
+    ((2, 3), "lazy", ["permute_rev"]),
+    # batch size spelled as a bare int 0 (seeded C18-2)
+    ((3,), "td", ["construct_int0"]),
+    # nested key whose sub-tuple unravels to one multi-character name (seeded C18-3)
+    ((3,), "td", ["tuple_get_set", "select_nested"]),
+]
 
 
 def programs(run):
     import torch._dynamo
+    import c18_ops as O
     rng = run.rng
     backends = ["eager"] if run.tier == "quick" else ["eager", "aot_eager", "inductor"]
-    nprog = 36 if run.tier == "quick" else 150
-    shapes = [(3,), (2, 3), (3, 1), (2, 2, 2), (1,), (4, 2)]
-    # corpus first: the minimised past failure (td[:0] under compile)
-    corpus = [((3,), ["idx_empty"]), ((2, 3), ["idx_empty", "mul2"]), ((3,), ["idx_neg", "add_td"]), ((2, 3), ["idx_step", "sum0"])]
-    progs = list(corpus)
-    while len(progs) < nprog:
-        progs.append((rng.choice(shapes), [rng.choice(OPS) for _ in range(rng.randint(1, 6))]))
+    nprog = 36 if run.tier == "quick" else 220
+    progs = list(CORPUS)
+    tries = 0
+    while len(progs) < nprog and tries < 20 * nprog:
+        tries += 1
+        shape, kind, ops = gen_program(rng, run.tier)
+        # mostly valid programs: an eagerly failing program is kept one time in five (both paths must fail)
+        if run_eager(shape, kind, ops) == "err" and rng.random() < 0.8:
+            continue
+        progs.append((shape, kind, ops))
     warnings.filterwarnings("ignore")
-    for i, (shape, ops) in enumerate(progs):
+    import logging
+    for lg in ("torch._dynamo", "torch._inductor", "torch.fx"):
+        logging.getLogger(lg).setLevel(logging.ERROR)
+    live = live_torch_bugs(run)
+    for i, (shape, kind, ops) in enumerate(progs):
         be = backends[i % len(backends)]
+        e = run_eager(shape, kind, ops)
         try:
-            with time_limit(60):
-                e = _canon_td(run_program(make_input(shape), ops))
-        except Exception as ex:
-            e = "err"
-        torch._dynamo.reset()
-        try:
-            with time_limit(300):
-                f = torch.compile(lambda td, ops=tuple(ops): run_program(td, ops), backend=be)
-                c = _canon_td(f(make_input(shape)))
+            c = run_compiled(shape, kind, ops, be)
         except TimeoutError:
             run.notes.append(f"compile timeout on {ops}")
             continue
-        except Exception as ex:
-            c = "err"
-        run.case(("prog", shape, tuple(ops), be), nontrivial=e != "err")
+        run.case(("prog", shape, kind, tuple(ops), be), nontrivial=e != "err")
         run.count("prog.len", len(ops))
+        run.count("prog.input", kind)
         run.count("prog.outcome", "err" if e == "err" else "ok")
+        run.count("prog.backend", be)
         for o in ops:
             run.count("prog.op", o)
+        bug = next((b for b in live if e != c and c == "err" and b["match"](LAST_COMPILED_ERROR[0])), None)
+        if bug is not None:
+            run.count("prog.torch_bug", bug["id"])
+            continue
         if e != c:
-            run.oracle_fail("program", {"shape": list(shape), "ops": ops, "backend": be},
-                            f"eager={str(e)[:200]} compiled={str(c)[:200]}", "prog:" + ",".join(ops))
+            run.oracle_fail("program", {"shape": list(shape), "input": kind, "ops": ops, "backend": be},
+                            f"eager={str(e)[:300]} compiled={str(c)[:300]}", "prog:" + kind + ":" + ",".join(ops))
         else:
             run.oracle_ok("program")
-        if i == 5:
-            run.sample({"stream": "program", "shape": list(shape), "ops": ops, "backend": be, "agree": e == c})
+        if i in (5, 9, 20):
+            run.sample({"stream": "program", "shape": list(shape), "input": kind, "ops": ops, "backend": be, "agree": e == c})
     torch._dynamo.reset()
